@@ -20,5 +20,5 @@ theorem buildTrie_eq_nodeAt (skip fuel : Nat) (B : List (Key × VH)) (p : List B
     simp only [buildTrie, h, blockResult, tgt, Nat.sub_self, hashUp, Nat.add_zero]
 
 end Nomt
-#print axioms Nomt.buildTrie_eq_nodeAt
-#print axioms Nomt.run_block
+
+
